@@ -58,6 +58,7 @@ type World struct {
 	preds           map[*ssa.Function]*ISet // tag predicate summaries
 	rets            map[retKey]ISet
 	rolesCache      map[string]*ssa.Function
+	roleNames       map[*ssa.Function]string // roles_discover.go: discovered function -> conventional role name
 	encCache        map[*ssa.Function]*encInfo
 	lenEncCache     map[*ssa.Function]*lenEncInfo
 	chunkReadCache  map[*ssa.Function][]chunkRead
